@@ -283,7 +283,7 @@ func (o *oracleC09) after(c *stepCtx) *ViolationRec {
 	case "SetInf", "SetMode":
 		want = []uint{0}
 	default:
-		return nil // SetRat, SetFloat, SetBitsExp, GobDecode, BitsSelf: not named by the property
+		return nil // SetRat, SetFloat, SetBitsExp, GobDecode, BitsSelf, BitsEdit: not named by the property
 	}
 	for _, p := range want {
 		if post.Prec == p {
@@ -303,6 +303,7 @@ type oracleC10 struct {
 	cnt        map[string]int
 	shCtx      *dctx.Context
 	preLatched bool
+	accUnknown bool // aliased context operation whose receiver-operand was rounded first
 }
 
 // ctxLatched reports whether the context holds a pending error (read-only peek).
@@ -320,6 +321,7 @@ func (o *oracleC10) counters() map[string]int                        { return o.
 func (o *oracleC10) before(c *stepCtx) {
 	op := c.op
 	c.shRes = nil
+	o.accUnknown = false
 	if op.Name == "IntTo" || op.Name == "RatTo" || op.Name == "FloatTo" {
 		// conversions into a caller-supplied destination: the destination is the
 		// receiver of the conversion; the reference run gets a fresh one carrying
@@ -384,7 +386,20 @@ func (o *oracleC10) before(c *stepCtx) {
 		// de-alias completely: every operand position gets its own copy
 		sop.A = make([]int, len(op.A))
 		for i, a := range op.A {
-			sw.V = append(sw.V, new(decimal.Decimal).Copy(c.w.V[a]))
+			cp := new(decimal.Decimal).Copy(c.w.V[a])
+			if a == op.Z && strings.HasPrefix(op.Name, "c.") && c.w.Ctx != nil {
+				// package context: "rounding occurs *before* doing the operation, as a
+				// result, if z is also one of the arguments ..." - the documented meaning
+				// of an aliased context operation is the operation on z rounded to the
+				// context first
+				cp.SetMode(c.w.Ctx.Mode()).SetPrec(c.w.Ctx.Prec())
+				if cp.Acc() != decimal.Exact {
+					// the live result's accuracy also accounts for this first rounding
+					o.accUnknown = true
+				}
+				o.cnt["aliased_context_steps"]++
+			}
+			sw.V = append(sw.V, cp)
 			sop.A[i] = len(sw.V) - 1
 		}
 		o.cnt["aliased_steps"]++
@@ -441,6 +456,9 @@ func (o *oracleC10) after(c *stepCtx) *ViolationRec {
 		return nil
 	}
 	lz, sz := c.post[op.Z], c.shObs
+	if o.accUnknown {
+		lz.Acc, sz.Acc = 0, 0
+	}
 	if lz.String()+lz.Digits != sz.String()+sz.Digits {
 		return fail("result-depends-on-aliasing-or-history", "live receiver   = %s\n  on fresh memory = %s", lz, sz)
 	}
